@@ -4,6 +4,7 @@ import DaskModel.Lemmas.BlellochAll
 import DaskModel.Lemmas.TopK
 import DaskModel.Lemmas.GridReduce
 import DaskModel.Lemmas.TreeDepth
+import DaskModel.Lemmas.Moment
 import Mathlib.Tactic.SplitIfs
 /-!
 # C22 — array reductions and scans equal NumPy for every chunking and `split_every`
@@ -24,7 +25,9 @@ data; sequential and Blelloch scans return the global scan.  What is proved here
 * the depth loop of `_tree_reduce` itself: `axesOk_treeDepth` (the depth it computes satisfies `n_i ≤ k_i ^ depth` on every
   reduced axis), `treeDepth_least`, `sum_nd_dask_depth` / `nd_tree_dask_depth` / `tree_dask_depth` (the theorems with dask's
   own depth — or any larger one — and no side condition left), `treeDepthLast_refuted` (depth from the last axis only);
-Not proved (validated by the correspondence check): float round-off, var/std/moment, nan-variants,
+* var / std / moment(order 2): `var_eq_numpy` (the Chan–Pébay merge of `moment_combine` over ℚ = the two-pass formula, empty
+  blocks included, `none` iff `n ≤ ddof`), `nanvar_eq_numpy`, `var_chunking_irrelevant` (1-d / one reduced axis per kept cell);
+Not proved (validated by the correspondence check): float round-off, moments of order ≥ 3, var over several axes at once, the other nan-variants,
 arg-reductions over several axes, median/quantile glue.
 -/
 namespace Dask.C22
@@ -897,6 +900,62 @@ theorem max_nd_eq_numpy (d : Nat) (ks nb : List Nat) (blocks : List (List Int)) 
   rw [mapM_some]
   simp only [Option.bind_some]
   exact minmax_nd (fun a b c => Int.max_assoc a b c) (fun a b => Int.max_comm a b) d ks nb blocks h hl
+
+/-! ## var / std / moment(order 2): the Chan–Pébay merge of `(n, Σx, Σ(x-mean)²)` (exact rationals) -/
+section variance
+open Dask.Moment
+
+/-- **var_eq_numpy**: for every blocking (empty blocks included), every `split_every = k` and valid depth, the
+    `moment_chunk → moment_combine* → moment_agg` tree returns NumPy's two-pass variance
+    `Σ(x - mean)² / (n - ddof)` of the concatenated data; `none` on both sides exactly when `n ≤ ddof`
+    (NumPy: nan / inf with a warning).  `da.std` is its square root (`np.sqrt`, trusted). -/
+theorem var_eq_numpy (ddof k depth : Nat) (hk : k ≠ 0) (blocks : List (List Rat)) (hne : blocks ≠ [])
+    (hd : blocks.length ≤ k ^ depth) :
+    (redVar ddof).run1 k depth blocks = some [varSpec ddof blocks.flatten] := by
+  unfold Red.run1
+  show ((blocks.mapM fun b => some (momChunk b)).map _) = _
+  rw [mapM_some]
+  simp only [Option.map_some]
+  show some (treeReduce momCombine (momAgg ddof) k depth (blocks.map momChunk)) = _
+  rw [treeReduce_map momChunk id momCombine (momAgg ddof) List.flatten (fun ds => varSpec ddof ds.flatten)
+    momCombine_chunks (fun ys => momAgg_chunks ddof ys)]
+  have hagg : Hom (List.flatten : List (List Rat) → List Rat) (fun ds => varSpec ddof ds.flatten) := by
+    intro gs _ _
+    show varSpec ddof (gs.map List.flatten).flatten = varSpec ddof gs.flatten.flatten
+    rw [List.flatten_flatten]
+  rw [treeReduce_eq_fold _ _ hom_flatten hagg k depth hk blocks hne hd]
+  simp
+
+/-- the variance does not depend on `split_every` nor on the chunking -/
+theorem var_chunking_irrelevant (ddof k d k' d' : Nat) (hk : k ≠ 0) (hk' : k' ≠ 0) (bs bs' : List (List Rat))
+    (hne : bs ≠ []) (hne' : bs' ≠ []) (hd : bs.length ≤ k ^ d) (hd' : bs'.length ≤ k' ^ d')
+    (hsame : bs.flatten = bs'.flatten) :
+    (redVar ddof).run1 k d bs = (redVar ddof).run1 k' d' bs' := by
+  rw [var_eq_numpy ddof k d hk bs hne hd, var_eq_numpy ddof k' d' hk' bs' hne' hd', hsame]
+
+theorem filterMap_id_flatten {α : Type} (bs : List (List (Option α))) :
+    (bs.map (List.filterMap id)).flatten = bs.flatten.filterMap id := by
+  induction bs with
+  | nil => rfl
+  | cons b bs ih => simp only [List.map_cons, List.flatten_cons, List.filterMap_append, ih]
+
+/-- `nanvar`: NaN entries (`none`) are dropped by `chunk.nansum` / `nannumel` in every block — the result is the
+    variance of the non-NaN data -/
+theorem nanvar_eq_numpy (ddof k depth : Nat) (hk : k ≠ 0) (blocks : List (List (Option Rat))) (hne : blocks ≠ [])
+    (hd : blocks.length ≤ k ^ depth) :
+    (redVar ddof).run1 k depth (blocks.map (List.filterMap id)) = some [varSpec ddof (blocks.flatten.filterMap id)] := by
+  rw [var_eq_numpy ddof k depth hk _ (by simpa using hne) (by simpa using hd), filterMap_id_flatten]
+
+/-- non-vacuity: blocks `[1, 2]`, `[]`, `[6]`: mean 3, Σ(x-3)² = 14, var = 14/3, with ddof = 1: 7;
+    a single value with ddof = 1 has no degrees of freedom -/
+example : (redVar 0).run1 2 2 [[1, 2], [], [6]] = some [some (14 / 3)] ∧ (redVar 1).run1 2 2 [[1, 2], [], [6]] = some [some 7]
+    ∧ (redVar 1).run1 2 1 [[5], []] = some [none] := by
+  refine ⟨?_, ?_, ?_⟩
+  · rw [var_eq_numpy 0 2 2 (by decide) _ (by simp) (by decide)]; decide +kernel
+  · rw [var_eq_numpy 1 2 2 (by decide) _ (by simp) (by decide)]; decide +kernel
+  · rw [var_eq_numpy 1 2 1 (by decide) _ (by simp) (by decide)]; decide +kernel
+
+end variance
 
 /-! ## K2: cumulative reductions -/
 section scans
